@@ -112,17 +112,25 @@ def one_case(rec, tap, rng, cid):
             import copy
             k = fixed[int(rng.integers(len(fixed)))]
             pp = copy.deepcopy(p0)
-            if rng.random() < .5:
+            r3 = rng.random()
+            kwb = dict(kw)
+            if r3 < .35:
                 pp[k].value = pp[k].value + float(
                     rng.choice([-1, 1]) * rng.uniform(.2, 1) * 1e-8)
                 if pp[k].value <= 0:
                     pp[k].value = p0[k].value + 1e-8
-            else:
+                case["fitted before with"] = {k: pp[k].value}
+            elif r3 < .7:
                 pp[k].value = pp[k].value * float(rng.uniform(1.05, 1.5))
-            case["fitted before with"] = {k: pp[k].value}
+                case["fitted before with"] = {k: pp[k].value}
+            else:
+                # identical parameters, the other segment (e.g. a loop over
+                # both segments of one curve)
+                kwb["segment"] = 1 - seg
+                case["fitted before with"] = {"segment": 1 - seg}
             rec.event("curves fitted before with another fixed parameter")
             try:
-                idnt.fit_model(**dict(kw, params_initial=pp))
+                idnt.fit_model(**dict(kwb, params_initial=pp))
             except BaseException:  # noqa
                 pass
     tap.clear()
